@@ -72,7 +72,12 @@ pub enum Op {
     BgRestore,
     /// wait until the background machinery is quiet (dumps done, messages processed)
     WaitIdle,
-    Offload { level: u8 },
+    /// `need` selects the `needed` argument: 0 = usize::MAX (everything), 1 = 1 byte, 2 = 4096, 3 = 0, 4 = 100 000
+    Offload {
+        level: u8,
+        #[serde(default)]
+        need: u8,
+    },
     Fsync,
     Free,
     /// clean close, optional damage to index files, build + init / init_lazy
@@ -358,7 +363,7 @@ pub fn op_strategy(p: &GenParams) -> BoxedStrategy<Op> {
         2 => pred_strategy().prop_map(Op::ForceUpdate),
     ];
     let maint = prop_oneof![
-        3 => (0u8..3).prop_map(|level| Op::Offload { level }),
+        3 => (0u8..3, prop_oneof![3 => Just(0u8), 2 => 1u8..5]).prop_map(|(level, need)| Op::Offload { level, need }),
         2 => Just(Op::Fsync),
         2 => Just(Op::Free),
     ];
@@ -393,6 +398,78 @@ pub fn case_strategy(cfg: BoxedStrategy<Cfg>, p: &GenParams) -> BoxedStrategy<Ca
     (cfg, prop::collection::vec(op_strategy(p), 0..p.max_ops)).prop_map(|(cfg, ops)| Case { cfg, ops }).boxed()
 }
 
+/// Histories at a scale the plain generator does not reach (vec lengths stay small so that shrinking keeps working):
+/// kind 0 = one key gets 257-340 versions inside ONE blob with timestamps drawn from two or three values (long runs of
+/// equal timestamps: list maintenance paths that depend on the list length), then a generated tail;
+/// kind 1 = 66-90 blob switches, one or two writes per blob, the record with the greatest timestamp of a key sitting in one
+/// of the OLDEST blobs (any search that stops early after "enough" younger blobs misses it), then a generated tail
+pub fn scale_case_strategy(cfg: BoxedStrategy<Cfg>, p: &GenParams) -> BoxedStrategy<Case> {
+    let tail = prop::collection::vec(op_strategy(p), 0..12);
+    let nkeys = p.nkeys.max(2);
+    let metas = p.metas.max(1);
+    let versions = (257usize..340, 0u64..3, 1u64..3, 0u8..2, prop::collection::vec((any::<u16>(), 0..nkeys, 0u64..4), 0..6), any::<u64>()).prop_map(move |(n, base, nts, key, others, salt)| {
+        let mut ops = vec![];
+        let mut x = salt | 1;
+        for i in 0..n {
+            // xorshift stream derived from the generated salt: which of the nts+1 timestamps, which meta
+            x ^= x << 13;
+            x ^= x >> 7;
+            x ^= x << 17;
+            let ts = base + (x >> 8) % (nts + 1);
+            let meta = ((x >> 20) % metas as u64) as u8;
+            ops.push(Op::Write { key, ts, meta, vlen: 4 + (i % 7) as u32, fill: 0 });
+            for (at, k2, t2) in &others {
+                if *at as usize % n == i {
+                    ops.push(Op::Write { key: *k2, ts: *t2, meta: 0, vlen: 5, fill: 0 });
+                }
+            }
+        }
+        ops.push(Op::Delete { key, ts: base + nts, meta: 0, only_if: true });
+        ops.push(Op::Write { key, ts: base + nts, meta: 0, vlen: 9, fill: 0 });
+        ops
+    });
+    let blobs = (66usize..90, 0usize..4, 0..nkeys, prop::collection::vec((0..nkeys, 0u64..50), 90), any::<bool>()).prop_map(move |(n, old_at, hot, per, marker)| {
+        let mut ops = vec![];
+        for i in 0..n {
+            if i == old_at {
+                // the top-ranked record (or marker) of the hot key lives in one of the oldest blobs
+                if marker {
+                    ops.push(Op::Write { key: hot, ts: 1, meta: 0, vlen: 6, fill: 0 });
+                    ops.push(Op::Delete { key: hot, ts: 1000, meta: 0, only_if: false });
+                } else {
+                    ops.push(Op::Write { key: hot, ts: 1000, meta: 0, vlen: 6, fill: 0 });
+                }
+            }
+            let (k, t) = per[i];
+            ops.push(Op::Write { key: k, ts: t, meta: 0, vlen: 4 + (i % 5) as u32, fill: 0 });
+            if i % 9 == 8 {
+                ops.push(Op::Write { key: hot, ts: 2 + i as u64, meta: 0, vlen: 7, fill: 0 });
+            }
+            ops.push(Op::Switch);
+        }
+        ops.push(Op::Write { key: hot, ts: 500, meta: 0, vlen: 8, fill: 0 });
+        ops
+    });
+    (cfg, prop_oneof![versions.boxed(), blobs.boxed()], tail)
+        .prop_map(|(mut cfg, mut ops, tail)| {
+            ops.extend(tail);
+            // (with duplicates refused the version lists would not grow)
+            cfg.allow_dup = true;
+            Case { cfg, ops }
+        })
+        .boxed()
+}
+
+pub fn offload_needed(need: u8) -> usize {
+    match need {
+        1 => 1,
+        2 => 4096,
+        3 => 0,
+        4 => 100_000,
+        _ => usize::MAX,
+    }
+}
+
 /// FNV-1a hash of the canonical JSON of a case (used for counting distinct cases)
 pub fn case_hash(c: &Case) -> u64 {
     let s = serde_json::to_vec(c).unwrap_or_default();
@@ -412,7 +489,7 @@ pub fn render_ops(ops: &[Op]) -> Vec<String> {
             Op::Delete { key, ts, meta, only_if } => format!("delete(k{},ts={},m{},only_if={})", key, fmt_ts(*ts), meta, only_if),
             Op::Reopen { lazy, remove_all_idx, damage } => format!("reopen(lazy={},rm_idx={},damage={})", lazy, remove_all_idx, damage.len()),
             Op::ForceUpdate(p) => format!("force_update({:?})", p),
-            Op::Offload { level } => format!("offload(l{})", level),
+            Op::Offload { level, need } => format!("offload(l{}, needed={})", level, offload_needed(*need)),
             Op::Cancel { victim, k } => format!("cancel({} after {})", victim.name(), k),
             Op::Burst { n, vlen } => format!("burst({}x{})", n, fmt_vlen(*vlen)),
             Op::CrashReopen { lazy, damage } => format!("crash_reopen(lazy={},{:?})", lazy, damage.iter().map(|d| format!("{:?}", d.kind)).collect::<Vec<_>>()),
